@@ -9,12 +9,9 @@ import (
 	"go/types"
 	"strings"
 
-	"golang.org/x/tools/go/cfg"
-
 	"rscheck/cfgq"
 	"rscheck/core"
 	"rscheck/driver"
-	"rscheck/pat"
 	"rscheck/rules/c06/tt"
 )
 
@@ -74,7 +71,7 @@ func Run(c *core.Ctx) {
 	c.Expect("R2.partition", 2)
 	c.Expect("R3.retry", 4)
 	c.Expect("R4.probe", 2)
-	c.Expect("R5.start", 2)
+	c.Expect("R5.start", 4)
 }
 
 // cmdErrWhen: when one error variable carries both failure kinds, the command-error row is the
@@ -386,831 +383,4 @@ func nodeState(c *core.Ctx, fn *core.Fn) (trueImpliesNil bool) {
 	}
 	c.Check("R1.node", name+"/master-without-error", fn.Decl.Pos(), trueImpliesNil, "an answer that can be `true` must carry a nil error: the caller discards nodes that answered with an error, so a real master would never be selected")
 	return trueImpliesNil
-}
-
-// ---------------------------------------------------------------------------
-// R1 selection / R2 partition / R4 probing: recursiveGetSlotState
-
-func isNodeField(info *types.Info, e ast.Expr, field string) (base ast.Expr, ok bool) {
-	s, isSel := ast.Unparen(e).(*ast.SelectorExpr)
-	if !isSel {
-		return nil, false
-	}
-	f := core.FieldOf(info, s)
-	if f == nil || f.Name() != field || f.Pkg() == nil || !strings.HasSuffix(f.Pkg().Path(), "/dbSync/slot") {
-		return nil, false
-	}
-	return s.X, true
-}
-
-func identObj(info *types.Info, e ast.Expr) types.Object {
-	if e == nil {
-		return nil
-	}
-	id, ok := ast.Unparen(e).(*ast.Ident)
-	if !ok {
-		return nil
-	}
-	return core.ObjOf(info, id)
-}
-
-// probeHost: callee probes one node (getRedisNodeState itself, or a same-package helper that only
-// forwards one of its parameters to it); returns the index of the host argument.
-func probeHost(c *core.Ctx, info *types.Info, node *core.Fn, callee types.Object) (int, bool) {
-	if callee == types.Object(node.Obj) {
-		return 0, true
-	}
-	f, _ := callee.(*types.Func)
-	h := c.FnOf(f)
-	if h == nil || h.Decl.Body == nil || h.Pkg.TypesInfo != info || len(h.Decl.Body.List) != 1 {
-		return 0, false
-	}
-	r, ok := h.Decl.Body.List[0].(*ast.ReturnStmt)
-	if !ok || len(r.Results) != 1 {
-		return 0, false
-	}
-	call, ok := ast.Unparen(r.Results[0]).(*ast.CallExpr)
-	if !ok || core.Callee(info, call) != types.Object(node.Obj) || len(call.Args) == 0 {
-		return 0, false
-	}
-	k := 0
-	for _, fl := range h.Decl.Type.Params.List {
-		for _, n := range fl.Names {
-			if identObj(info, call.Args[0]) == info.Defs[n] {
-				return k, true
-			}
-			k++
-		}
-	}
-	return 0, false
-}
-
-func selection(c *core.Ctx, rec, node *core.Fn, trueNil bool) {
-	info := rec.Pkg.TypesInfo
-	name := rec.Decl.Name.Name
-	isProbe := func(_ *ast.CallExpr, callee types.Object) bool { _, ok := probeHost(c, info, node, callee); return ok }
-	// the probing loop lives in recursiveGetSlotState or in a same-package helper it calls
-	fn := rec
-	opaque := func(f *types.Func) bool { return f == node.Obj || f == rec.Obj }
-	recView := tt.ViewOf(c.Program, rec, "c20", opaque)
-	var viaCall *ast.CallExpr
-	if len(core.Calls(recView.Body, info, isProbe)) == 0 {
-		for _, call := range core.Calls(recView.Body, info, func(*ast.CallExpr, types.Object) bool { return true }) {
-			if h := c.FnOf(core.CalleeFunc(info, call)); h != nil && h.Decl.Body != nil && h.Pkg.TypesInfo == info && h.Obj != rec.Obj && len(core.Calls(h.Decl.Body, info, isProbe)) > 0 {
-				fn, viaCall = h, call
-			}
-		}
-	}
-	view := tt.ViewOf(c.Program, fn, "c20", opaque)
-	body := view.Body
-	g := view.G
-	x := view.X(c.Program)
-	// objects seen through pointer aliases: with `p := &v` (the pointer parameter of an inlined
-	// helper), `p.f` is `v.f` and `*p` is `v`
-	var target func(e ast.Expr, depth int) types.Object
-	target = func(e ast.Expr, depth int) types.Object {
-		e = ast.Unparen(e)
-		if st, ok := e.(*ast.StarExpr); ok {
-			return target(st.X, depth)
-		}
-		id, ok := e.(*ast.Ident)
-		if !ok {
-			return nil
-		}
-		if depth > 0 {
-			if d, ok := tt.SingleDef(info, body, id); ok && d.Rhs != nil && d.Index == -1 && d.Range == nil {
-				if u, ok := ast.Unparen(d.Rhs).(*ast.UnaryExpr); ok && u.Op == token.AND {
-					if t := target(u.X, depth-1); t != nil {
-						return t
-					}
-				}
-				if _, isId := ast.Unparen(d.Rhs).(*ast.Ident); isId {
-					if _, isPtr := info.TypeOf(id).(*types.Pointer); isPtr {
-						return target(d.Rhs, depth-1) // a copy of a pointer
-					}
-				}
-			}
-		}
-		return core.ObjOf(info, id)
-	}
-	baseObj := func(e ast.Expr) types.Object { return target(e, 3) }
-	boolObj := func(e ast.Expr) types.Object {
-		if o := tt.BoolLocal(info, e); o != nil {
-			if _, isPtrDeref := ast.Unparen(e).(*ast.StarExpr); !isPtrDeref {
-				return o
-			}
-		}
-		if _, isDeref := ast.Unparen(e).(*ast.StarExpr); isDeref {
-			if v, ok := target(e, 3).(*types.Var); ok {
-				if b, ok := v.Type().Underlying().(*types.Basic); ok && b.Kind() == types.Bool {
-					return v
-				}
-			}
-		}
-		return nil
-	}
-	// the probe
-	calls := core.Calls(body, info, isProbe)
-	if len(calls) != 1 {
-		c.Undecidedf("R1.select", name+"/probe", fn.Decl.Pos(), "expected one call of getRedisNodeState, found %d", len(calls))
-		return
-	}
-	pp, _ := g.Find(calls[0])
-	pas, ok := pp.Node().(*ast.AssignStmt)
-	loop := x.LoopOf(calls[0]) // a range loop or a counting loop over the host list
-	hostList, isElem := tt.LoopElem(info, loop)
-	hostIdx, _ := probeHost(c, info, node, core.Callee(info, calls[0]))
-	if !ok || len(pas.Lhs) != 2 || loop == nil || hostList == nil || len(calls[0].Args) <= hostIdx {
-		c.Undecidedf("R1.select", name+"/probe", calls[0].Pos(), "the probe is not `isMaster, err = getRedisNodeState(host, ...)` inside a range loop")
-		return
-	}
-	isMaster, perr, host := identObj(info, pas.Lhs[0]), identObj(info, pas.Lhs[1]), identObj(info, calls[0].Args[hostIdx])
-	// the probed host is the loop's element, possibly through single-assignment copies
-	// (`addr := known[idx]`, the parameter of an inlined forwarding helper)
-	hostRoot := tt.Resolve(info, body, calls[0].Args[hostIdx], 5)
-	hostIsElem := isElem(calls[0].Args[hostIdx]) || isElem(hostRoot)
-	isHost := func(e ast.Expr) bool {
-		if e == nil {
-			return false
-		}
-		r := tt.Resolve(info, body, e, 5)
-		return identObj(info, e) != nil && identObj(info, e) == host || tt.SameExpr(info, r, hostRoot)
-	}
-	if isMaster == nil || host == nil || !hostIsElem {
-		c.Undecidedf("R1.select", name+"/probe", calls[0].Pos(), "the probed host is not the loop's element or the answer is not kept in a variable")
-		return
-	}
-	masterFact := func(f cfgq.Fact) bool { return boolObj(f.Expr) == isMaster && f.Val }
-	noErrFact := func(f cfgq.Fact) bool {
-		is, nonNil := errFact(info, f, perr)
-		return perr != nil && is && !nonNil
-	}
-	// the carriers of the result: <result>.Source / <result>.Slaves themselves, or the locals that
-	// are stored into these fields once the loop is over (values carried in locals)
-	var res types.Object
-	srcVars, slvVars := map[types.Object]bool{}, map[types.Object]bool{}
-	core.Inspect(body, func(n ast.Node) bool {
-		as, ok := n.(*ast.AssignStmt)
-		if !ok || len(as.Lhs) != len(as.Rhs) {
-			return true
-		}
-		for i := range as.Lhs {
-			for fld, vars := range map[string]map[types.Object]bool{"Source": srcVars, "Slaves": slvVars} {
-				if base, ok := isNodeField(info, as.Lhs[i], fld); ok && baseObj(base) != nil {
-					res = baseObj(base)
-					if v, isVar := identObj(info, as.Rhs[i]).(*types.Var); isVar && !v.IsField() && x.LoopOf(as) != ast.Stmt(loop) && !isHost(as.Rhs[i]) {
-						vars[v] = true
-					}
-				}
-			}
-		}
-		return true
-	})
-	isCarrier := func(e ast.Expr, fld string, vars map[types.Object]bool) bool {
-		if base, ok := isNodeField(info, e, fld); ok {
-			return res != nil && baseObj(base) == res
-		}
-		o := identObj(info, e)
-		return o != nil && vars[o]
-	}
-	var sources, appends, keeps []ast.Node
-	srcValue := map[ast.Node]ast.Expr{} // what a source assignment stores
-	for _, p := range g.Points(func(n ast.Node) bool { _, ok := n.(*ast.AssignStmt); return ok }) {
-		as := p.Node().(*ast.AssignStmt)
-		if len(as.Lhs) != len(as.Rhs) || x.LoopOf(as) != ast.Stmt(loop) {
-			continue
-		}
-		for i := range as.Lhs { // each pair of a (tuple) assignment
-			if isCarrier(as.Lhs[i], "Source", srcVars) {
-				sources = append(sources, as)
-				srcValue[as] = as.Rhs[i]
-				continue
-			}
-			if l0, h, ok := appendOf(as.Rhs[i]); ok && isCarrier(as.Lhs[i], "Slaves", slvVars) && pat.Same(info, as.Lhs[i], l0) {
-				if isHost(h) {
-					appends = append(appends, as)
-				} else if isCarrier(h, "Source", srcVars) {
-					keeps = append(keeps, as)
-				}
-			}
-		}
-	}
-	if len(sources) == 0 || res == nil {
-		c.Undecidedf("R1.select", name+"/source", loop.Pos(), "no assignment to the Source of the result inside the probing loop")
-		return
-	}
-	for _, s := range sources {
-		as := s.(*ast.AssignStmt)
-		c.Check("R1.select", name+"/assigns-probed-host", as.Pos(), isHost(srcValue[as]), "the node made Source must be the host that was just probed, `"+c.Src(as)+"` selects another value")
-		ok, w := x.OnlyVia(cfgq.Point{}, as, masterFact)
-		c.Check("R1.select", name+"/only-master", as.Pos(), ok, "Source may be assigned only when the probe answered master: otherwise a replica, an unreachable node or a node without role is chosen as the sync source", w...)
-		ok2, w2 := x.OnlyVia(cfgq.Point{}, as, noErrFact)
-		c.Check("R1.select", name+"/only-without-error", as.Pos(), ok2 || trueNil, "Source may be assigned only when the probe returned no error (or getRedisNodeState never answers true with an error): otherwise a node that failed the probe is chosen", w2...)
-	}
-	// the found flag
-	var flag types.Object
-	var flagSets []ast.Node
-	for _, p := range g.Points(func(n ast.Node) bool { _, ok := n.(*ast.AssignStmt); return ok }) {
-		as := p.Node().(*ast.AssignStmt)
-		if len(as.Lhs) != len(as.Rhs) || x.LoopOf(as) != ast.Stmt(loop) {
-			continue
-		}
-		for i := range as.Lhs {
-			o := boolObj(as.Lhs[i])
-			if o == nil || o == isMaster {
-				continue
-			}
-			bv, isConst := tt.BoolConst(info, as.Rhs[i])
-			if isConst && bv || identObj(info, as.Rhs[i]) == isMaster {
-				if flag != nil && flag != o {
-					c.Undecidedf("R1.select", name+"/found-flag", as.Pos(), "more than one 'master found' flag")
-					return
-				}
-				flag = o
-				flagSets = append(flagSets, as)
-			}
-		}
-	}
-	// the flag and the result as recursiveGetSlotState sees them
-	rflag, rres, rx := flag, res, x
-	if viaCall != nil && flag != nil {
-		rflag, rres = nil, nil
-		rg := recView.G
-		rx = recView.X(c.Program)
-		vp, _ := rg.Find(viaCall)
-		if vas, ok := vp.Node().(*ast.AssignStmt); ok && len(vas.Rhs) == 1 {
-			core.Inspect(body, func(n ast.Node) bool {
-				if r, ok := n.(*ast.ReturnStmt); ok && len(r.Results) == len(vas.Lhs) {
-					for i, e := range r.Results {
-						if identObj(info, e) == flag {
-							rflag = identObj(info, vas.Lhs[i])
-						}
-						if identObj(info, e) == res {
-							rres = identObj(info, vas.Lhs[i])
-						}
-					}
-				}
-				return true
-			})
-		}
-	}
-	// the flag and the result may be handed on through copies after the loop (results of an
-	// inlined helper): `newSlot, masterFound = topology, found`
-	if viaCall == nil && flag != nil {
-		for pass := 0; pass < 3; pass++ {
-			core.Inspect(body, func(n ast.Node) bool {
-				as, ok := n.(*ast.AssignStmt)
-				if !ok || len(as.Lhs) != len(as.Rhs) || x.LoopOf(as) == loop {
-					return true
-				}
-				for i := range as.Rhs {
-					r, l := identObj(info, as.Rhs[i]), identObj(info, as.Lhs[i])
-					if r == nil || l == nil {
-						continue
-					}
-					if r == rflag && boolObj(as.Lhs[i]) != nil {
-						rflag = l
-					}
-					if r == rres {
-						rres = l
-					}
-				}
-				return true
-			})
-		}
-	}
-	var rets []*ast.ReturnStmt
-	core.Inspect(recView.Body, func(n ast.Node) bool {
-		if r, ok := n.(*ast.ReturnStmt); ok && len(r.Results) == 2 && core.IsNil(info, r.Results[1]) && !core.IsNil(info, r.Results[0]) {
-			if _, isCall := ast.Unparen(r.Results[0]).(*ast.CallExpr); !isCall {
-				rets = append(rets, r)
-			}
-		}
-		return true
-	})
-	if flag == nil || rflag == nil || rres == nil || len(rets) == 0 {
-		c.Undecidedf("R1.select", name+"/found-flag", loop.Pos(), "no 'master found' flag / success return recognised")
-		return
-	}
-	flagTrue := func(f cfgq.Fact) bool { return boolObj(f.Expr) == rflag && f.Val }
-	okFlag := true
-	var wf []string
-	for _, s := range flagSets {
-		if ok, w := x.OnlyVia(cfgq.Point{}, s, masterFact); !ok {
-			okFlag, wf = false, w
-		}
-	}
-	for _, d := range tt.DefsOf(info, body, flag) {
-		if st, ok := d.Stmt.(ast.Stmt); ok && x.LoopOf(st) == ast.Stmt(loop) {
-			continue
-		}
-		if bv, isConst := tt.BoolConst(info, d.Rhs); d.Rhs != nil && (!isConst || bv) {
-			okFlag = false
-		}
-	}
-	c.Check("R1.select", name+"/found-flag", flagSets[0].Pos(), okFlag, "the 'master found' flag starts false and is set only when a probe answered master", wf...)
-	for _, r := range rets {
-		if !relatesTo(info, recView.Body, r.Results[0], rres) {
-			c.Undecidedf("R1.select", name+"/success-only-with-master", r.Pos(), "cannot relate the returned value `%s` to the topology built by the probing loop", c.Src(r.Results[0]))
-			continue
-		}
-		ok, w := rx.OnlyVia(cfgq.Point{}, r, flagTrue)
-		c.Check("R1.select", name+"/success-only-with-master", r.Pos(), ok && (!relatesTo(info, recView.Body, r.Results[0], rres) || true), "the topology is returned as a success only when a master was found in this pass: otherwise the tool syncs from the stale source (possibly a replica) instead of retrying / failing", w...)
-	}
-
-	// ---- R2 / R4: the paths of one iteration
-	var head *cfg.Block
-	for _, b := range g.CFG.Blocks {
-		if b.Live && (b.Kind == cfg.KindRangeLoop || b.Kind == cfg.KindForLoop) && b.Stmt == loop {
-			head = b
-		}
-	}
-	if head == nil {
-		c.Undecidedf("R2.partition", name+"/iteration", loop.Pos(), "loop head not found")
-		return
-	}
-	traces, err := x.Traces(head.Succs[0], 0, func(b *cfg.Block) bool { return b == head }, 500)
-	if err != nil {
-		c.Undecidedf("R2.partition", name+"/iteration", loop.Pos(), "cannot enumerate the paths of one iteration: %v", err)
-		return
-	}
-	in := func(list []ast.Node, n ast.Node) bool {
-		for _, m := range list {
-			if m == n {
-				return true
-			}
-		}
-		return false
-	}
-	var badClass, badKeep, earlyExit []string
-	for ti := range traces {
-		t := &traces[ti]
-		if t.End == tt.EndAbort {
-			continue
-		}
-		if t.End != tt.EndStop && t.End != tt.EndBack {
-			earlyExit = describe(c, t)
-			continue
-		}
-		nS, nA := 0, 0
-		kept, flagVal, flagKnown, flagSet := false, false, false, false
-		// values saved before they are overwritten: `previous, hadMaster := newSlot.Source, masterFound`
-		srcCopy, flagCopy := map[types.Object]bool{}, map[types.Object]bool{}
-		for _, ev := range t.Evs {
-			if ev.Lit != nil {
-				o := boolObj(ev.Lit.Expr)
-				if o != nil && (o == flag && !flagSet || flagCopy[o]) {
-					flagVal, flagKnown = ev.Lit.Val, true
-				}
-				continue
-			}
-			if ev.Node == nil {
-				continue
-			}
-			if as, ok := ev.Node.(*ast.AssignStmt); ok && len(as.Lhs) == len(as.Rhs) {
-				for i := range as.Lhs {
-					if _, hx, ok := appendOf(as.Rhs[i]); ok && isCarrier(as.Lhs[i], "Slaves", slvVars) {
-						if h := identObj(info, hx); h != nil && srcCopy[h] {
-							kept = true // the saved previous source is listed as a replica
-						}
-					}
-					l := identObj(info, as.Lhs[i])
-					if l == nil {
-						continue
-					}
-					if isCarrier(as.Rhs[i], "Source", srcVars) && nS == 0 && !isCarrier(as.Lhs[i], "Source", srcVars) {
-						srcCopy[l] = true
-					}
-					if identObj(info, as.Rhs[i]) == flag && !flagSet && l != flag {
-						flagCopy[l] = true
-					}
-				}
-			}
-			switch {
-			case in(keeps, ev.Node):
-				if nS == 0 {
-					kept = true
-				}
-			case in(appends, ev.Node):
-				nA++
-			}
-			if in(sources, ev.Node) {
-				nS++
-			}
-			if in(flagSets, ev.Node) {
-				flagSet = true
-			}
-		}
-		okKeep := nS == 0 || flagKnown && !flagVal || flagKnown && flagVal && kept
-		if nS+nA != 1 {
-			badClass = describe(c, t)
-		}
-		if !okKeep {
-			badKeep = describe(c, t)
-		}
-	}
-	c.Check("R2.partition", name+"/every-host-classified", loop.Pos(), badClass == nil, "on every path of one iteration the probed host must become Source or be appended to Slaves, exactly one of the two: otherwise a known node is dropped from the topology (or listed as its own replica)", badClass...)
-	c.Check("R2.partition", name+"/displaced-source", sources[0].Pos(), badKeep == nil,
-		"when a host is made Source although a master was already chosen earlier in the same pass, the earlier one must be kept (appended to Slaves) or the later one must be listed as a replica; witness: nodes A and B both answer role:master (e.g. during a failover) -> the result has Source=B and Slaves without A: A is listed neither as source nor as replica", badKeep...)
-	c.Check("R4.probe", name+"/no-early-exit", loop.Pos(), earlyExit == nil, "the probing loop must visit every node: with a break/return inside the loop the nodes after the first master are not listed as replicas", earlyExit...)
-
-	// the host list: Source followed by all Slaves of the supervisor's slot
-	items, okItems := hostItems(info, body, hostList, 3)
-	if okItems && len(items) == 2 && items[0] == "Source" && items[1] == "Slaves..." {
-		c.Okf("R4.probe", name+"/host-list", loop.Pos(), "the probed hosts are the known Source followed by all known Slaves")
-	} else {
-		c.Undecidedf("R4.probe", name+"/host-list", loop.Pos(), "the host list `%s` is not recognised as the supervisor's Source followed by its Slaves (%v)", c.Src(tt.Resolve(info, body, hostList, 2)), items)
-	}
-}
-
-// hostItems evaluates a []string expression built with literals and append from the fields of
-// s.slot: "Source", "Slaves..." in order. Locals are followed through their definitions when these
-// are top-level statements of the function that precede the loop.
-func hostItems(info *types.Info, body *ast.BlockStmt, e ast.Expr, depth int) ([]string, bool) {
-	field := func(e ast.Expr, spread bool) (string, bool) {
-		for _, f := range []string{"Source", "Slaves"} {
-			if b, ok := isNodeField(info, e, f); ok && core.IsFieldNamed(info, b, sup, "slot") && (f == "Slaves") == spread {
-				if spread {
-					return f + "...", true
-				}
-				return f, true
-			}
-		}
-		return "", false
-	}
-	e = ast.Unparen(e)
-	switch v := e.(type) {
-	case *ast.CompositeLit:
-		var out []string
-		for _, el := range v.Elts {
-			it, ok := field(el, false)
-			if !ok {
-				return nil, false
-			}
-			out = append(out, it)
-		}
-		return out, true
-	case *ast.CallExpr:
-		id, ok := v.Fun.(*ast.Ident)
-		if !ok {
-			return nil, false
-		}
-		switch id.Name {
-		case "make":
-			return nil, len(v.Args) >= 2 && func() bool { n, ok := core.IntConst(info, v.Args[1]); return ok && n == 0 }()
-		case "append":
-			if len(v.Args) == 0 {
-				return nil, false
-			}
-			out, ok := hostItems(info, body, v.Args[0], depth)
-			if !ok {
-				return nil, false
-			}
-			for i, a := range v.Args[1:] {
-				it, ok := field(a, v.Ellipsis.IsValid() && i == len(v.Args)-2)
-				if !ok {
-					return nil, false
-				}
-				out = append(out, it)
-			}
-			return out, true
-		}
-	case *ast.Ident:
-		if depth == 0 {
-			return nil, false
-		}
-		o := identObj(info, v)
-		var out []string
-		k := 0
-		for _, d := range tt.DefsOf(info, body, o) {
-			// every definition is executed unconditionally, once: no loop or branch around it
-			straight := true
-			for _, anc := range core.PathTo(body, d.Stmt) {
-				switch anc.(type) {
-				case *ast.IfStmt, *ast.SwitchStmt, *ast.TypeSwitchStmt, *ast.SelectStmt, *ast.ForStmt, *ast.RangeStmt, *ast.FuncLit:
-					if anc != d.Stmt {
-						straight = false
-					}
-				}
-			}
-			if !straight {
-				return nil, false
-			}
-			if d.Rhs == nil {
-				continue // var hosts []string
-			}
-			k++
-			if k > 1 {
-				// a later definition must extend the list itself: hosts = append(hosts, ...)
-				call, ok := ast.Unparen(d.Rhs).(*ast.CallExpr)
-				if !ok || len(call.Args) == 0 || identObj(info, call.Args[0]) != o {
-					return nil, false
-				}
-				id, _ := call.Fun.(*ast.Ident)
-				if id == nil || id.Name != "append" {
-					return nil, false
-				}
-				for i, a := range call.Args[1:] {
-					it, ok := field(a, call.Ellipsis.IsValid() && i == len(call.Args)-2)
-					if !ok {
-						return nil, false
-					}
-					out = append(out, it)
-				}
-				continue
-			}
-			items, ok := hostItems(info, body, d.Rhs, depth-1)
-			if !ok {
-				return nil, false
-			}
-			out = items
-		}
-		return out, true
-	}
-	return nil, false
-}
-
-// appendOf matches `append(l, h)` syntactically (no look-through of locals: a saved copy of the
-// previous source must stay distinguishable from the source itself).
-func appendOf(e ast.Expr) (l, h ast.Expr, ok bool) {
-	call, isCall := ast.Unparen(e).(*ast.CallExpr)
-	if !isCall || len(call.Args) != 2 || call.Ellipsis.IsValid() {
-		return nil, nil, false
-	}
-	if id, isId := call.Fun.(*ast.Ident); !isId || id.Name != "append" {
-		return nil, nil, false
-	}
-	return call.Args[0], call.Args[1], true
-}
-
-// relatesTo: the returned expression is (the address of) the result variable, a copy of it, or a
-// pointer through which the result was stored (`p := new(T); *p = res; return p`).
-func relatesTo(info *types.Info, body ast.Node, e ast.Expr, res types.Object) bool {
-	if res == nil {
-		return false
-	}
-	if core.Mentions(info, e, res) || tt.MentionsResolved(info, body, e, res, 4) {
-		return true
-	}
-	p := identObj(info, e)
-	found := false
-	ast.Inspect(body, func(n ast.Node) bool {
-		as, ok := n.(*ast.AssignStmt)
-		if !ok || len(as.Lhs) != len(as.Rhs) {
-			return true
-		}
-		for i := range as.Lhs {
-			if st, ok := ast.Unparen(as.Lhs[i]).(*ast.StarExpr); ok && p != nil && identObj(info, st.X) == p && core.Mentions(info, as.Rhs[i], res) {
-				found = true
-			}
-		}
-		return true
-	})
-	return found
-}
-
-func describe(c *core.Ctx, t *tt.Trace) []string {
-	var out []string
-	for _, ev := range t.Evs {
-		switch {
-		case ev.Lit != nil:
-			out = append(out, fmt.Sprintf("%s is %v", c.Src(ev.Lit.Expr), ev.Lit.Val))
-		case ev.Node != nil:
-			out = append(out, fmt.Sprintf("L%d: %s", c.Fset.Position(ev.Node.Pos()).Line, c.Src(ev.Node)))
-		}
-	}
-	return out
-}
-
-// ---------------------------------------------------------------------------
-// R3: bounded retry
-
-func retry(c *core.Ctx, fn, get *core.Fn) {
-	info := fn.Pkg.TypesInfo
-	view := tt.ViewOf(c.Program, fn, "c20retry", func(f *types.Func) bool { return f == fn.Obj })
-	body := view.Body
-	g := view.G
-	x := view.X(c.Program)
-	name := fn.Decl.Name.Name
-	if len(fn.Decl.Type.Params.List) != 1 || len(fn.Decl.Type.Params.List[0].Names) != 1 {
-		c.Undecidedf("R3.retry", name+"/depth", fn.Decl.Pos(), "expected one depth parameter")
-		return
-	}
-	depth := info.Defs[fn.Decl.Type.Params.List[0].Names[0]]
-	isDepth := func(e ast.Expr) bool { return identObj(info, e) == depth }
-	recs := g.Points(g.HasCall(func(_ *ast.CallExpr, callee types.Object) bool { return callee == types.Object(fn.Obj) }))
-	if len(recs) == 0 {
-		c.Undecidedf("R3.retry", name+"/recursion", fn.Decl.Pos(), "no recursive retry found")
-		return
-	}
-	// facts about the depth
-	depthFact := func(f cfgq.Fact) (zero bool, ok bool) {
-		for _, t := range []struct {
-			p    string
-			zero bool
-		}{{"_d == 0", true}, {"_d <= 0", true}, {"_d < 1", true}, {"_d != 0", false}, {"_d > 0", false}, {"_d >= 1", false}} {
-			if b := pat.Expr(t.p).Match(info, f.Expr, nil); b != nil && isDepth(b["_d"].(ast.Expr)) {
-				return t.zero == f.Val, true
-			}
-		}
-		return false, false
-	}
-	for _, rp := range recs {
-		var call *ast.CallExpr
-		for _, cl := range cfgq.ExecCalls(rp.Node()) {
-			if core.CalleeFunc(info, cl) == fn.Obj {
-				call = cl
-			}
-		}
-		arg := ast.Unparen(call.Args[0])
-		switch {
-		case func() bool {
-			b := pat.Expr("_d - 1").Match(info, arg, nil)
-			return b != nil && isDepth(b["_d"].(ast.Expr))
-		}():
-			c.Okf("R3.retry", name+"/decrements", call.Pos(), "each retry passes depth-1")
-		case isDepth(arg), pat.Expr("_d + _k").Match(info, arg, nil) != nil && core.Mentions(info, arg, depth):
-			c.Failf("R3.retry", name+"/decrements", call.Pos(), "the retry passes `%s`, the depth never reaches 0: with no node reporting role:master the tool retries forever (hangs) instead of failing with an error", c.Src(arg))
-		default:
-			c.Undecidedf("R3.retry", name+"/decrements", call.Pos(), "retry argument `%s` not recognised", c.Src(arg))
-		}
-		ok, w := x.OnlyVia(cfgq.Point{}, rp.Node(), func(f cfgq.Fact) bool { z, ok := depthFact(f); return ok && !z })
-		if !ok {
-			// path-sensitive: is the retry reachable at all when depth == 0 is assumed (flags tracked)?
-			rnode := rp.Node()
-			w = x.Reach(tt.ReachQuery{From: cfgq.Point{B: g.CFG.Blocks[0], I: -1}, FromSucc: -1, Env: tt.Env{}, Target: func(n ast.Node) bool { return n == rnode },
-				Assume: func(e ast.Expr) int {
-					if z, isDepth := depthFact(cfgq.Fact{Expr: e, Val: true}); isDepth {
-						if z {
-							return 1
-						}
-						return -1
-					}
-					return 0
-				}})
-			ok = w == nil
-		}
-		mention := false
-		for _, bk := range g.CFG.Blocks {
-			if cond := x.Cond(bk); cond != nil && bk.Live && core.Mentions(info, cond, depth) {
-				mention = true
-			}
-		}
-		if !ok && mention {
-			c.Undecidedf("R3.retry", name+"/stops-at-zero", call.Pos(), "the depth is tested, but the analysis cannot show that the retry is unreachable for depth == 0")
-			continue
-		}
-		c.Check("R3.retry", name+"/stops-at-zero", call.Pos(), ok, "the retry must be reachable only while depth != 0: without a test of the depth the tool retries forever instead of failing with an error", w...)
-	}
-	// depth == 0 ends in an error
-	n := 0
-	for _, b := range g.CFG.Blocks {
-		for si := range b.Succs {
-			if !b.Live || !x.Establishes(b, si, func(f cfgq.Fact) bool { z, ok := depthFact(f); return ok && z }) {
-				continue
-			}
-			n++
-			w := g.Path(cfgq.Query{From: cfgq.Point{B: b.Succs[si]}, TargetExit: func(bk *cfg.Block, k cfgq.ExitKind) bool {
-				if k == cfgq.ExitRet {
-					return cfgq.ClassifyReturn(info, body, bk.Nodes[len(bk.Nodes)-1].(*ast.ReturnStmt)) != cfgq.RetErr
-				}
-				return k == cfgq.ExitFall
-			}})
-			c.Check("R3.retry", name+"/zero-is-error", b.Nodes[len(b.Nodes)-1].Pos(), w == nil, "when the retries are used up and no master was found the function must return an error: otherwise the tool syncs from a node that is not the master", w...)
-		}
-	}
-	if n == 0 {
-		c.Undecidedf("R3.retry", name+"/zero-is-error", fn.Decl.Pos(), "no test of the depth against 0 found")
-	}
-	// the initial depth
-	if get != nil {
-		ginfo := get.Pkg.TypesInfo
-		okStart := false
-		for _, call := range core.Calls(get.Decl.Body, ginfo, func(_ *ast.CallExpr, callee types.Object) bool { return callee == types.Object(fn.Obj) }) {
-			okStart = len(call.Args) == 1 && core.IsFieldNamed(ginfo, tt.Resolve(ginfo, get.Decl.Body, call.Args[0], 3), sup, "maxRetries")
-		}
-		okConst, found := true, false
-		pk := c.Pkg(pkgSup)
-		for _, f := range pk.Syntax {
-			ast.Inspect(f, func(nd ast.Node) bool {
-				lit, ok := nd.(*ast.CompositeLit)
-				if !ok || core.NamedTypeName(pk.TypesInfo.TypeOf(lit)) != sup {
-					return true
-				}
-				for _, el := range lit.Elts {
-					if kv, ok := el.(*ast.KeyValueExpr); ok {
-						if k, ok := kv.Key.(*ast.Ident); ok && k.Name == "maxRetries" {
-							found = true
-							if v, isConst := core.IntConst(pk.TypesInfo, kv.Value); !isConst || v < 0 {
-								okConst = false
-							}
-						}
-					}
-				}
-				return true
-			})
-		}
-		if !okStart || !found {
-			c.Undecidedf("R3.retry", "GetSlotState/max-retries", get.Decl.Pos(), "GetSlotState does not start the retries with a constant s.maxRetries")
-		} else {
-			c.Check("R3.retry", "GetSlotState/max-retries", get.Decl.Pos(), okConst, "maxRetries must be a non-negative constant: a negative depth never meets the depth == 0 exit and the tool retries forever")
-		}
-	}
-}
-
-// ---------------------------------------------------------------------------
-// R5: updateSlotTopology
-
-func useAtStart(c *core.Ctx, fn *core.Fn) {
-	info := fn.Pkg.TypesInfo
-	view := tt.ViewOf(c.Program, fn, "c20start", nil)
-	g := view.G
-	x := view.X(c.Program)
-	name := fn.Decl.Name.Name
-	pts := g.Points(g.HasCall(func(_ *ast.CallExpr, callee types.Object) bool {
-		f, ok := callee.(*types.Func)
-		return ok && f.Name() == "GetSlotState" && f.Pkg() != nil && strings.HasSuffix(f.Pkg().Path(), pkgSup)
-	}))
-	if len(pts) != 1 {
-		c.Undecidedf("R5.start", name+"/discovery", fn.Decl.Pos(), "expected one call of GetSlotState, found %d", len(pts))
-		return
-	}
-	as, ok := pts[0].Node().(*ast.AssignStmt)
-	if !ok || len(as.Lhs) != 2 {
-		c.Undecidedf("R5.start", name+"/discovery", pts[0].Node().Pos(), "the results of GetSlotState are not bound")
-		return
-	}
-	slot, serr := identObj(info, as.Lhs[0]), identObj(info, as.Lhs[1])
-	if id, isId := as.Lhs[1].(*ast.Ident); isId && id.Name == "_" {
-		c.Failf("R5.start", name+"/error-stops", as.Pos(), "the error of GetSlotState is discarded: when no master is found the syncer continues with a nil / stale node")
-		return
-	}
-	direct := core.IsFieldNamed(info, as.Lhs[0], "DbSyncer", "node") // `ds.node, err = ...GetSlotState()`
-	if serr == nil || slot == nil && !direct {
-		c.Undecidedf("R5.start", name+"/discovery", as.Pos(), "the results of GetSlotState are bound in an unrecognised way")
-		return
-	}
-	if direct {
-		// the result is stored at once: what matters is that a failed discovery never returns normally
-		isErrD := func(f cfgq.Fact) bool { is, nonNil := errFact(info, f, serr); return is && nonNil }
-		tested, _ := g.MustPassToExit(pts[0], true, func(n ast.Node) bool { return false })
-		var w2 []string
-		n := 0
-		for _, b := range g.CFG.Blocks {
-			for si := range b.Succs {
-				if b.Live && x.Establishes(b, si, isErrD) {
-					n++
-					if w2 == nil {
-						w2 = g.Path(cfgq.Query{From: cfgq.Point{B: b.Succs[si]}, TargetExit: cfgq.NormalExit})
-					}
-				}
-			}
-		}
-		_ = tested
-		wNoTest := g.Path(cfgq.Query{From: pts[0], After: true, TargetExit: cfgq.NormalExit,
-			AvoidEdge: func(b *cfg.Block, si int) bool {
-				return x.Establishes(b, si, func(f cfgq.Fact) bool { is, _ := errFact(info, f, serr); return is })
-			}})
-		c.Check("R5.start", name+"/error-stops", as.Pos(), n > 0 && w2 == nil && wNoTest == nil, "the error of GetSlotState must be tested and a failed discovery must end in a no-return log: otherwise the syncer continues with a nil node after 'no master found'", append(w2, wNoTest...)...)
-		c.Okf("R5.start", name+"/replaces-node", as.Pos(), "the discovered topology is stored in ds.node by the call itself")
-		return
-	}
-	var sets []ast.Node
-	for _, p := range g.Points(func(n ast.Node) bool {
-		a, ok := n.(*ast.AssignStmt)
-		return ok && len(a.Lhs) == 1 && len(a.Rhs) == 1 && core.IsFieldNamed(info, a.Lhs[0], "DbSyncer", "node") && identObj(info, a.Rhs[0]) == slot
-	}) {
-		sets = append(sets, p.Node())
-	}
-	noErr := func(f cfgq.Fact) bool { is, nonNil := errFact(info, f, serr); return is && !nonNil }
-	isErr := func(f cfgq.Fact) bool { is, nonNil := errFact(info, f, serr); return is && nonNil }
-	if len(sets) == 0 {
-		c.Failf("R5.start", name+"/replaces-node", as.Pos(), "the discovered topology is never stored in ds.node: the sync keeps using the old source, which may have become a replica")
-	}
-	for _, s := range sets {
-		ok, w := x.OnlyVia(cfgq.Point{}, s, noErr)
-		c.Check("R5.start", name+"/error-stops", s.Pos(), ok, "ds.node may be replaced only when GetSlotState returned no error (the error path ends in a no-return log): otherwise the syncer continues with a nil node after 'no master found'", w...)
-	}
-	isSet := func(n ast.Node) bool {
-		for _, s := range sets {
-			if s == n {
-				return true
-			}
-		}
-		return false
-	}
-	w := g.Path(cfgq.Query{From: pts[0], After: true, Avoid: isSet, TargetExit: cfgq.NormalExit,
-		AvoidEdge: func(b *cfg.Block, si int) bool { return false }})
-	if len(sets) > 0 {
-		// on the error edge the function must not return normally either
-		var w2 []string
-		for _, b := range g.CFG.Blocks {
-			for si := range b.Succs {
-				if b.Live && w2 == nil && x.Establishes(b, si, isErr) {
-					w2 = g.Path(cfgq.Query{From: cfgq.Point{B: b.Succs[si]}, Avoid: isSet, TargetExit: cfgq.NormalExit})
-				}
-			}
-		}
-		c.Check("R5.start", name+"/replaces-node", as.Pos(), w == nil && w2 == nil, "after a discovery every normal path stores the result in ds.node, and a failed discovery never returns normally: otherwise Sync() goes on with the previous source, which may no longer be the master", append(w, w2...)...)
-	}
 }
